@@ -260,6 +260,30 @@ def _twice(case):
             outs.append(io.fetch_output())
         if outs[0] != outs[1]:
             diffs.append("table/" + fac)
+        # the same on ONE decorated I/O (one formatter object for both renders), with styled cells that contain tags,
+        # and a tagged line written before and after: rendering leaves nothing behind in the formatter
+        from clikit.api.formatter import Style
+        from clikit.formatter import AnsiFormatter
+        st = getattr(TableStyle, fac)()
+        st.cell_style = Style().fg("green")
+        st.header_cell_style = Style().bold()
+        t2 = Table(st)
+        t2.set_header_row(["h%d" % i for i in range(ncol)])
+        t2.add_row(["<b>x%d</b> y" % i for i in range(ncol)])
+        io = BufferedIO(formatter=AnsiFormatter(forced=True))
+        chunks, pos = [], 0
+        for step in ("line", "table", "line", "table", "line"):
+            if step == "line":
+                io.write_line("plain <info>tagged</info> plain")
+            else:
+                t2.render(io)
+            buf = io.fetch_output()
+            chunks.append(buf[pos:])
+            pos = len(buf)
+        if chunks[1] != chunks[3]:
+            diffs.append("styled table rendered twice on one decorated I/O/" + fac)
+        if not (chunks[0] == chunks[2] == chunks[4]):
+            diffs.append("a tagged line before/after a styled table on one decorated I/O/" + fac)
     # help page twice, and a help page after an unrelated failing run
     tree = ac.gen_tree(rng, max_depth=2, fanout=2, opts_by_depth=OPTS)
     tree["global_flag"] = False
